@@ -121,6 +121,31 @@ Example C12_rename_collision :
   Some (mkpset ["ARG1"; "ARG0"] ["ARG0"; "ARG1"] [("ARG0", NArg 0 0)]).
 Proof. reflexivity. Qed.
 
+(* PrimitiveSetTyped.__init__ establishes the consistency hypotheses used above (pset_ok, arg_entries) for
+   every identifier prefix and every number of arguments; registering an object (addPrimitive, addADF,
+   addTerminal, addEphemeralConstant) makes it the entry of its key, leaves the other keys alone, and keeps
+   the consistency as long as the key is not an argument name *)
+Theorem C12_init_ok : forall prefix tys,
+  is_ident prefix = true ->
+  let ps := pset_init prefix tys in
+  pset_ok ps /\ arg_entries ps /\ ps_arguments ps = map (arg_name prefix) (seq 0 (List.length tys)).
+Proof. exact init_ok. Qed.
+Print Assumptions C12_init_ok.
+
+Theorem C12_add_registers : forall o ps names ps' names',
+  pset_add o (ps, names) = Some (ps', names') ->
+  dget (bop_key o) (ps_mapping ps') = Some (bop_node o) /\
+  (forall k, k <> bop_key o -> dget k (ps_mapping ps') = dget k (ps_mapping ps)) /\
+  ps_arguments ps' = ps_arguments ps /\ ps_argvalue ps' = ps_argvalue ps.
+Proof. exact add_registers. Qed.
+Print Assumptions C12_add_registers.
+
+Theorem C12_add_keeps_ok : forall o ps names ps' names',
+  pset_add o (ps, names) = Some (ps', names') -> ~ In (bop_key o) (ps_arguments ps) ->
+  pset_ok ps -> arg_entries ps -> pset_ok ps' /\ arg_entries ps'.
+Proof. exact add_keeps_ok. Qed.
+Print Assumptions C12_add_keeps_ok.
+
 (* integer (also negative) and boolean constants always meet the printing hypothesis *)
 Theorem C12_int_bool_constants_ok : forall ps r,
   (forall z, node_ok ps (NConst (CInt z) r)) /\ (forall b, node_ok ps (NConst (CBool b) r)).
